@@ -221,12 +221,12 @@ def bandlimited_rms(r, psd, wllow=None, wlhigh=None, flow=None, fhigh=None):
     if wllow is not None or wlhigh is not None:
         # spatial period given
         if wllow is None:
-            flow = 0
+            fhigh = default_max
         else:
             fhigh = 1 / wllow
 
         if wlhigh is None:
-            fhigh = default_max
+            flow = 0
         else:
             flow = 1 / wlhigh
     elif flow is not None or fhigh is not None:
